@@ -414,7 +414,7 @@ func binaryTable(r *vh.Run, bin string, i int) {
 		roBefore = treeListing(root)
 	}
 	args := []string{"--dir", root, "--store-type", storeType, fmt.Sprintf("--store-ro=%v", s.ReadOnly), fmt.Sprintf("--api-push=%v", s.Push), fmt.Sprintf("--api-delete=%v", s.Delete),
-		fmt.Sprintf("--api-blob-delete=%v", s.BlobDelete), fmt.Sprintf("--api-referrer=%v", s.Referrers), "--gc-frequency", "-1s"}
+		fmt.Sprintf("--api-blob-delete=%v", s.BlobDelete), fmt.Sprintf("--api-referrer=%v", s.Referrers), "--gc-frequency", "10000h"}
 	for _, wv := range warnings {
 		args = append(args, "--warning", wv)
 	}
@@ -517,7 +517,7 @@ func sigtermTrial(r *vh.Run, bin string, i int) {
 	// server stops (each request then takes the server lock)
 	rate := []string{"0", "1000000"}[(i/2)%2]
 	wit["rate_limit"] = rate
-	p, err := launch(bin, "--dir", root, "--api-delete", "--gc-frequency", []string{"-1s", "20ms"}[i%2], "--gc-grace-period", "1h", "--rate-limit", rate)
+	p, err := launch(bin, "--dir", root, "--api-delete", "--gc-frequency", []string{"10000h", "20ms"}[i%2], "--gc-grace-period", "1h", "--rate-limit", rate)
 	if err != nil {
 		r.Inconclusive("binary did not start: " + err.Error())
 		return
